@@ -56,6 +56,11 @@ RestartsNumbered(events) ==
 RestartsBounded(events) == \A a \in Actors : Cardinality(EvIdx(events, "Restarted", a)) <= MaxRestarts[a]
 Exhausted(events, a) == EvIdx(events, "MaxRestartsExceeded", a) # {}
 
+(* a is not the subject of any stop request (directly or through an ancestor) and has not exhausted its budget *)
+NotStopping(issued, events, a) ==
+  /\ \A k \in 1..Len(issued) : TokTarget[issued[k]] # a /\ TokTarget[issued[k]] \notin Anc(a)
+  /\ \A x \in Anc(a) \cup {a} : ~Exhausted(events, x)
+
 (* ---- C13 ---- *)
 ChainAlways(log) == \A j \in Idx(log) : log[j].mw
 
@@ -120,5 +125,9 @@ AllDone(done, issued, events, carveD3) ==
   \A k \in 1..Len(issued) :
      \/ done[issued[k]].at >= 0
      \/ carveD3 /\ (\/ ~FirstOn(issued, issued[k])
-                    \/ \E a \in Anc(TokTarget[issued[k]]) \cup {TokTarget[issued[k]]} : Exhausted(events, a))
+                    \/ \E a \in Anc(TokTarget[issued[k]]) \cup {TokTarget[issued[k]]} : Exhausted(events, a)
+                    \* the target's own shutdown poisons its children and waits for them: if a descendant is being
+                    \* stopped by something else at that moment, that internal request is the pending one and the
+                    \* target waits for ever
+                    \/ \E d \in Desc(TokTarget[issued[k]]) : SelfStopping(issued, events, TokTarget[issued[k]], d))
 =============================================================================
